@@ -107,9 +107,13 @@ class Exec:
                 h = h64(("typed", k, jt)) % 8
                 if len(jt) == 1 and h < 5:
                     blocks[k] = (SyntheticTail, SyntheticExit, SyntheticFill, SyntheticTail, SyntheticTail)[h](name=k, _jump_targets=jt, backedges=())
-                elif len(jt) == 2 and h < 6:
+                elif len(jt) >= 2 and len(set(jt)) == len(jt) and h < 6:
                     cls = (SyntheticBranch, SyntheticHead, SyntheticExitBranch, SyntheticBranch, SyntheticHead, SyntheticExitBranch)[h]
-                    blocks[k] = cls(name=k, _jump_targets=jt, backedges=(), variable=f"__scfg_control_var_{k}__", branch_value_table={0: jt[0], 1: jt[1], 2: jt[h % 2]})
+                    table = {i: t for i, t in enumerate(jt)}
+                    table[len(jt)] = jt[h % 2]
+                    blocks[k] = cls(name=k, _jump_targets=jt, backedges=(), variable=f"__scfg_control_var_{k}__", branch_value_table=table)
+                elif len(jt) >= 2 and len(set(jt)) == len(jt):
+                    blocks[k] = (SyntheticExit, SyntheticTail)[h % 2](name=k, _jump_targets=jt, backedges=())  # what join_tails_and_exits leaves behind
                 else:
                     blocks[k] = b
             self.real = SCFG(blocks)
